@@ -37,6 +37,8 @@ def rand_idl(rng, n, kind, start=None, step=None, as_type=None):
     elif kind == 'irregular':
         m = n + int(rng.integers(1, max(2, n)))
         keep = sorted(rng.choice(m, size=n, replace=False).tolist())
+        if not any(b - a == 1 for a, b in zip(keep, keep[1:])):
+            keep[1] = keep[0] + 1          # smallest difference 1 => every difference is a multiple of it
         if all(b - a == keep[1] - keep[0] for a, b in zip(keep, keep[1:])):
             keep[-1] += 1  # not equally spaced any more (n >= 3)
         idl = [start + k for k in keep]
